@@ -681,6 +681,7 @@ impl C {
                 _ => json!({}),
             }
         } else { json!({}) };
+        let other_before = c.enc_state();
         let mut rd = ScriptReader { steps: script.iter().cloned().collect() };
         let res = if kind == "client" {
             let r = guard(|| dec_half!(c, via, |h| h.read_and_decrypt_client_header(&mut rd).map(|x| (x.size, x.opcode)), V, T, WS));
@@ -703,8 +704,10 @@ impl C {
         let same = *c == before;
         let st = c.dec_state();
         let left: usize = rd.steps.iter().map(|s| if let Step::Data(d) = s { d.len() } else { 0 }).sum();
+        let other_after = c.enc_state();
         self.tr.ev(json!({"ev": "ReadHdr", "h": c.hd, "kind": kind, "script": steps_json(script), "via": via, "res": res.clone(),
-                          "same": same, "unread": left, "st": st, "sent": sent, "afterAttempt": after_attempt}));
+                          "same": same, "unread": left, "st": st, "sent": sent, "afterAttempt": after_attempt,
+                          "otherSame": other_before == other_after}));
         res
     }
 
@@ -712,6 +715,7 @@ impl C {
     pub fn write_hdr(&mut self, c: &mut Conn, kind: &str, size: u32, opcode: u32, script: &[Step], via: &str) -> Value {
         let wire = if kind == "client" { wire_client(size as u16, opcode) } else { wire_server(c.exp, size, opcode as u16) };
         let raw = c.raw_enc(&wire);
+        let other_before = c.dec_state();
         let mut w = ScriptWriter { steps: script.iter().cloned().collect(), delivered: vec![] };
         let r = guard(|| {
             if kind == "client" {
@@ -728,9 +732,11 @@ impl C {
             Err(m) => panic_res(&m),
         };
         let st = c.enc_state();
+        let other_after = c.dec_state();
         let opv = if kind == "client" { u32le(opcode) } else { Value::from(opcode) };
         self.tr.ev(json!({"ev": "WriteHdr", "h": c.he, "kind": kind, "size": size, "opcode": opv, "script": steps_json(script), "via": via,
-                          "res": res.clone(), "delivered": b(&w.delivered), "st": st, "wire": b(&wire), "raw": raw}));
+                          "res": res.clone(), "delivered": b(&w.delivered), "st": st, "wire": b(&wire), "raw": raw,
+                          "otherSame": other_before == other_after}));
         res
     }
 
